@@ -22,9 +22,12 @@
   Covered: Pass, Assign, Reduce, WriteConfig, If, For (seq; `par` is compiled the same way, the
   pragma is printed), Alloc, Free, WindowStmt; reads of tensors / windows / scalars, window
   expressions on the right of a WindowStmt, stride expressions, config reads; one precision.
-  NOT covered (`compS` returns `.error "unsupported:…"`): Call (hence window / `&x` arguments,
-  instructions), externs, memories other than DRAM, precision casts, a config read inside a loop
-  bound (see CSem: the real C re-evaluates the bound every round).
+  Calls of non-instruction sub-procedures: `comp_fnarg` (`compArg`) and the Call case of `comp_s`;
+  the callee is compiled with its own environment (`initEnvOf` from ITS signature and stride
+  assertions) and embedded in the call node.
+  NOT covered (`compS` returns `.error "unsupported:…"`): instruction procedures (not visible in
+  the export: excluded by the tie), data expressions as arguments, externs, memories other than
+  DRAM, precision casts.
   `.error "raise:…"` = the real compiler raises on this input (assertions of `lift_to_cir`,
   `get_idx_offset`, `simplify_cir`'s Python-float division, exceptions of the range analysis).
   No Mathlib.
@@ -48,6 +51,9 @@ structure CEnv where
   known : List ((Sym × Nat) × Int)
   renv : Range.Env
   modOK : Bool
+  /-- per callee name: the bounds `IndexRangeEnvironment(callee, fast=False)` holds for its size
+      arguments (SMT-derived in the real code; an input of the model) -/
+  cb : List (String × List (Sym × Bound))
 deriving Inhabited
 
 abbrev M := Except String
@@ -218,6 +224,91 @@ def CEnv.push (Γ : CEnv) : CEnv := { Γ with renv := Γ.renv.enterScope }
 def CEnv.pop (Γ : CEnv) : CEnv := { Γ with renv := Γ.renv.exitScope }
 def CEnv.declare (Γ : CEnv) (x : Sym) (t : Ty) : CEnv := { Γ with typ := (x, t) :: Γ.typ }
 
+/-! ## the environment `Compiler.__init__` builds from the signature -/
+
+def argTyOf (typ : List (Sym × Ty)) : ArgTy → Ty
+  | .ctrl _ => .idx
+  | .scalar => .scalar
+  | .tensor sh true => .window sh.length
+  | .tensor sh false => .tensor (sh.map (toIE typ))
+
+def initTyp : List FnArg → List (Sym × Ty) → List (Sym × Ty)
+  | [], acc => acc
+  | a :: r, acc => initTyp r ((a.name, argTyOf acc a.ty) :: acc)
+
+def initRefs : List FnArg → List Sym
+  | [] => []
+  | ⟨x, .scalar⟩ :: r => x :: initRefs r
+  | _ :: r => initRefs r
+
+/-- `_known_strides`: predicates of the form `stride(x, d) == c` (later ones win) -/
+def initKnown : List Expr → List ((Sym × Nat) × Int) → List ((Sym × Nat) × Int)
+  | [], acc => acc
+  | .binop .eq (.stride x d) (.lit (.int c)) :: r, acc => initKnown r (((x, d), c) :: acc)
+  | _ :: r, acc => initKnown r acc
+
+/-- `bounds`: what `IndexRangeEnvironment(proc, fast=False)` holds for the size arguments (SMT
+    derived in the real code; supplied by the caller) -/
+def cbLookup (name : String) : List (String × List (Sym × Bound)) → List (Sym × Bound)
+  | [] => []
+  | (n, b) :: r => if name = n then b else cbLookup name r
+
+def initEnvOf (args : List FnArg) (preds : List Expr) (bounds : List (Sym × Bound))
+    (cb : List (String × List (Sym × Bound))) : CEnv :=
+  { typ := initTyp args [], refs := initRefs args, known := initKnown preds [],
+    renv := Range.Env.initWith bounds, modOK := true, cb := cb }
+
+def initEnv (p : Proc) (bounds : List (Sym × Bound))
+    (cb : List (String × List (Sym × Bound)) := []) : CEnv :=
+  initEnvOf p.args p.preds bounds cb
+
+/-- C parameter kind of a formal -/
+def paramKind : ArgTy → PKind
+  | .ctrl _ => .int
+  | .scalar => .ptr
+  | .tensor _ true => .win
+  | .tensor _ false => .ptr
+
+def paramsOf (args : List FnArg) : List (Sym × PKind) := args.map (fun a => (a.name, paramKind a.ty))
+
+/-- `comp_fnarg(e, fn, i)`; the formal is consulted only for the consistency that the real code
+    asserts (`a.type.is_win() == fna.type.is_win()`) or that the front end guarantees -/
+def compArg (Γ : CEnv) (fa : FnArg) : Expr → M (CArg × Bool)
+  | .read y [] =>
+      match lookupSym y Γ.typ, paramKind fa.ty with
+      | some .idx, .int => pure (.int (.var y), true)
+      | some .scalar, .ptr =>
+          match fa.ty with
+          | .scalar => pure (.ptr y (!Γ.refs.contains y), true)
+          | _ => throw "raise:call-argument-kind"
+      | some (.tensor _), .ptr =>
+          match fa.ty with
+          | .tensor _ false => pure (.ptr y false, true)
+          | _ => throw "raise:call-argument-kind"
+      | some (.window _), .win => pure (.winVar y, true)
+      | none, _ => throw "raise:KeyError"
+      | _, _ => throw "raise:call-argument-kind"
+  | .read _ (_ :: _) => throw "raise:AssertionError:comp_fnarg"
+  | .win y acc =>
+      match paramKind fa.ty with
+      | .win => do
+          let (isW, los, strs, ivs, k) ← windowFields Γ y acc
+          pure (.win y isW los strs ivs, k)
+      | _ => throw "raise:call-argument-kind"
+  | e =>
+      match paramKind fa.ty with
+      | .int => do let (e', k) ← compC Γ false e; pure (.int e', k)
+      | _ => throw "unsupported:data-expression-as-argument"
+
+def compArgs (Γ : CEnv) : List FnArg → List Expr → M (List CArg × Bool)
+  | [], [] => pure ([], true)
+  | fa :: fs, e :: es => do
+      let (a, k1) ← compArg Γ fa e
+      let (as, k2) ← compArgs Γ fs es
+      pure (a :: as, k1 && k2)
+  | _, _ => throw "raise:arity"
+
+
 mutual
 /-- `comp_s` -/
 def compS (Γ : CEnv) : Stmt → M (List CStmt × CEnv)
@@ -272,7 +363,13 @@ def compS (Γ : CEnv) : Stmt → M (List CStmt × CEnv)
       | some .scalar => pure ([], Γ)
       | some (.tensor _) => pure ([.free x], Γ)
       | _ => throw "raise:KeyError"
-  | .call _ _ => throw "unsupported:call"
+  | .call (.mk name fargs preds body) args => do
+      -- `args = [self.comp_fnarg(e, s.f, i) …]`; `fname(ctxt,args)`.  The callee is compiled by its
+      -- own `Compiler` (fresh environment from ITS signature); instruction procedures are not
+      -- visible in the export and are excluded by the tie
+      let (as, k) ← compArgs Γ fargs args
+      let (b', Γf) ← compL (initEnvOf fargs preds (cbLookup name Γ.cb) Γ.cb) body
+      pure ([.call (.mk name (paramsOf fargs) b') as], Γ.note (k && Γf.modOK))
 /-- `comp_stmts` -/
 def compL (Γ : CEnv) : List Stmt → M (List CStmt × CEnv)
   | [] => pure ([], Γ)
@@ -282,37 +379,9 @@ def compL (Γ : CEnv) : List Stmt → M (List CStmt × CEnv)
       pure (cs ++ cr, Γ2)
 end
 
-/-! ## the environment `Compiler.__init__` builds from the signature -/
-
-def argTyOf (typ : List (Sym × Ty)) : ArgTy → Ty
-  | .ctrl _ => .idx
-  | .scalar => .scalar
-  | .tensor sh true => .window sh.length
-  | .tensor sh false => .tensor (sh.map (toIE typ))
-
-def initTyp : List FnArg → List (Sym × Ty) → List (Sym × Ty)
-  | [], acc => acc
-  | a :: r, acc => initTyp r ((a.name, argTyOf acc a.ty) :: acc)
-
-def initRefs : List FnArg → List Sym
-  | [] => []
-  | ⟨x, .scalar⟩ :: r => x :: initRefs r
-  | _ :: r => initRefs r
-
-/-- `_known_strides`: predicates of the form `stride(x, d) == c` (later ones win) -/
-def initKnown : List Expr → List ((Sym × Nat) × Int) → List ((Sym × Nat) × Int)
-  | [], acc => acc
-  | .binop .eq (.stride x d) (.lit (.int c)) :: r, acc => initKnown r (((x, d), c) :: acc)
-  | _ :: r, acc => initKnown r acc
-
-/-- `bounds`: what `IndexRangeEnvironment(proc, fast=False)` holds for the size arguments (SMT
-    derived in the real code; supplied by the caller) -/
-def initEnv (p : Proc) (bounds : List (Sym × Bound)) : CEnv :=
-  { typ := initTyp p.args [], refs := initRefs p.args, known := initKnown p.preds [],
-    renv := Range.Env.initWith bounds, modOK := true }
-
-def compP (p : Proc) (bounds : List (Sym × Bound)) : M (List CStmt × CEnv) :=
-  compL (initEnv p bounds) p.body
+def compP (p : Proc) (bounds : List (Sym × Bound))
+    (cb : List (String × List (Sym × Bound)) := []) : M (List CStmt × CEnv) :=
+  compL (initEnv p bounds cb) p.body
 
 /-! ## printer: the text the real compiler emits for the tree -/
 
@@ -385,6 +454,18 @@ def fresh (sc : Scopes) (x : Sym) : M (String × Scopes) :=
   | .ok r => pure r
   | .error e => throw (nameErr e)
 
+def printArg (pr : Prec) (env : Sym → String) : CArg → String
+  | .int e => printCI env e 0
+  | .ptr x addr => (if addr then "&" else "") ++ env x
+  | .winVar x => env x
+  | .win src isW los strs ivs =>
+      let idxs := los.map (fun e => printCE env e 0)
+      let ss := strs.map (fun e => printCE env e 0)
+      let data := memWindow isW (env src) idxs ss
+      let kept := ((ss.zip ivs).filter (fun p => p.2)).map (fun p => p.1)
+      let ty := "struct exo_win_" ++ toString kept.length ++ pr.short
+      "(" ++ ty ++ "){ &" ++ data ++ ", { " ++ ", ".intercalate kept ++ " } }"
+
 mutual
 def printS (pr : Prec) (sc : Scopes) : CStmt → M (List String × Scopes)
   | .nop => pure (["; // NO-OP"], sc)
@@ -430,6 +511,8 @@ def printS (pr : Prec) (sc : Scopes) : CStmt → M (List String × Scopes)
       let (nm, sc1) ← fresh sc w
       pure ([ty ++ " " ++ nm ++ " = (" ++ ty ++ "){ &" ++ data ++ ", { " ++ ", ".intercalate kept ++
         " } };"], sc1)
+  | .call (.mk name _ _) args =>
+      pure ([name ++ "(" ++ ",".intercalate ("ctxt" :: args.map (printArg pr (envFn sc))) ++ ");"], sc)
 def printL (pr : Prec) (sc : Scopes) : List CStmt → M (List String × Scopes)
   | [] => pure ([], sc)
   | s :: r => do
@@ -466,6 +549,14 @@ def cdSyms : CD → List Sym
   | .neg a => cdSyms a
   | .cfg _ _ => []
 
+/-- the pointer / struct variables handed to a callee -/
+def argSyms : List CArg → List Sym
+  | [] => []
+  | .int _ :: r => argSyms r
+  | .ptr x _ :: r => x :: argSyms r
+  | .winVar x :: r => x :: argSyms r
+  | .win src _ _ _ _ :: r => src :: argSyms r
+
 structure FS where
   al : List (Sym × Sym)    -- (window, source), newest first
   dead : List Sym          -- freed
@@ -498,6 +589,10 @@ def fsS (fs : FS) : CStmt → Option FS
       if fs.mine.contains x && !fs.dead.contains x then some { fs with dead := x :: fs.dead } else none
   | .winInit w src _ _ _ _ =>
       if fs.vis.contains w then none else some { fs with al := (w, src) :: fs.al, vis := w :: fs.vis }
+  | .call (.mk _ ps body) args =>
+      -- the callee may dereference what it is handed; its body is a function body of its own
+      if (argSyms args).all fs.okUse && blockOK (fsL ⟨[], [], [], ps.map (·.1)⟩ body)
+      then some fs else none
 def fsL (fs : FS) : List CStmt → Option FS
   | [] => some fs
   | s :: r => match fsS fs s with
@@ -519,8 +614,9 @@ def FreeOK (Γ : CEnv) (vis0 : List Sym) (ss : List Stmt) : Bool :=
 
 /-- the lines of the function body that `comp_stmts(proc.body)` produces, the ghost F6 flag, and
     whether the body satisfies the `free` discipline -/
-def printP (pr : Prec) (p : Proc) (bounds : List (Sym × Bound)) : M (List String × Bool × Bool) := do
-  let (cs, Γ) ← compP p bounds
+def printP (pr : Prec) (p : Proc) (bounds : List (Sym × Bound))
+    (cb : List (String × List (Sym × Bound)) := []) : M (List String × Bool × Bool) := do
+  let (cs, Γ) ← compP p bounds cb
   let sc ← initScopes (⟨"ctxt", 0⟩ :: p.args.map (·.name)) [⟨[], []⟩]
   let (ls, _) ← printL pr sc cs
   pure (ls, Γ.modOK, freeOK (p.args.map (·.name)) cs)
